@@ -6,6 +6,9 @@
 -/
 import ALV.Spec.C13Hist
 
+set_option linter.unusedSectionVars false
+set_option linter.unusedSimpArgs false
+
 namespace ALV.C13
 open ALV
 
